@@ -193,7 +193,28 @@ Section Lit.
     destruct (Hp S (rel_reach _ _ R)) as [P1 _]. apply (P1 w d1 l1 d2 l2 k1 k2); assumption.
   Qed.
 
-  (** *** one complete word *)
+  (** *** one transition of the automaton = one word read by the specification *)
+  Lemma rel_trans s S w dso lvl t :
+    rel s S -> trans_on d s (ILit w dso lvl) t -> rel t (step en S w) /\ step en S w <> [].
+  Proof.
+    intros R Htr.
+    destruct (trans_is_item s S _ t R Htr) as [w' [dso' [l' [k0 [E Hin0]]]]]. inversion E; subst w' dso' l'.
+    assert (Hk0 : In k0 (step en S w)) by (apply (step_lit_only en S w k0 (rel_lit _ _ R)); eauto).
+    assert (Hne' : step en S w <> []) by (intro E0; rewrite E0 in Hk0; destruct Hk0).
+    split; [| exact Hne']. destruct Htr as [i [Hs Hn]]. constructor.
+    + apply (sim_step d Hinp s S i t (ILit w dso lvl) (step en S w) (rel_sim _ _ R) (rel_good _ _ R) Hs Hn).
+      intro k. rewrite (step_lit_only en S w k (rel_lit _ _ R)). split.
+      * intros [d' [l' Hin]]. exists (LLit w d' l'). split; [exact Hin |].
+        destruct (same_label s S w d' l' k dso lvl k0 R Hin Hin0) as [-> ->]. reflexivity.
+      * intros [a' [Hin Ha]]. destruct (good_moves S a' k (rel_good _ _ R) Hin) as [Hp _].
+        destruct a'; cbn in Ha; try discriminate; inversion Ha; subst. eauto.
+    + apply step_good_state. apply (rel_good _ _ R).
+    + apply step_lit_state. apply (rel_lit _ _ R).
+    + destruct (step_istep en S w (ambiguous_step_lit en S w (rel_lit _ _ R)) Hne') as [a' [Ha' Hi]].
+      eapply reach_next; [apply (rel_reach _ _ R) | exact Ha' | exact Hi].
+    + apply (targets_coreachable s i t Hs).
+  Qed.
+
   Lemma walk_step s S w :
     rel s S ->
     match lit_lookup T s w with
@@ -203,27 +224,61 @@ Section Lit.
   Proof.
     intro R. destruct (lit_lookup T s w) as [t |] eqn:El.
     - destruct (lit_lookup_sound d (a_commands a) _ _ _ om T Hwf Hord Hglt s w t El) as [dso [lvl Htr]].
-      destruct (trans_is_item s S _ t R Htr) as [w' [dso' [l' [k0 [E Hin0]]]]]. inversion E; subst w' dso' l'.
-      assert (Hk0 : In k0 (step en S w)) by (apply (step_lit_only en S w k0 (rel_lit _ _ R)); eauto).
-      assert (Hne' : step en S w <> []) by (intro E0; rewrite E0 in Hk0; destruct Hk0).
-      split; [| exact Hne']. destruct Htr as [i [Hs Hn]]. constructor.
-      + apply (sim_step d Hinp s S i t (ILit w dso lvl) (step en S w) (rel_sim _ _ R) (rel_good _ _ R) Hs Hn).
-        intro k. rewrite (step_lit_only en S w k (rel_lit _ _ R)). split.
-        * intros [d' [l' Hin]]. exists (LLit w d' l'). split; [exact Hin |].
-          destruct (same_label s S w d' l' k dso lvl k0 R Hin Hin0) as [-> ->]. reflexivity.
-        * intros [a' [Hin Ha]]. destruct (good_moves S a' k (rel_good _ _ R) Hin) as [Hp _].
-          destruct a'; cbn in Ha; try discriminate; inversion Ha; subst. eauto.
-      + apply step_good_state. apply (rel_good _ _ R).
-      + apply step_lit_state. apply (rel_lit _ _ R).
-      + destruct (step_istep en S w (ambiguous_step_lit en S w (rel_lit _ _ R)) Hne') as [a' [Ha' Hi]].
-        eapply reach_next; [apply (rel_reach _ _ R) | exact Ha' | exact Hi].
-      + apply (targets_coreachable s i t Hs).
+      apply (rel_trans s S w dso lvl t R Htr).
     - destruct (step en S w) as [| k r] eqn:Es; [reflexivity | exfalso].
       assert (Hk : In k (step en S w)) by (rewrite Es; left; reflexivity).
       apply (step_lit_only en S w k (rel_lit _ _ R)) in Hk. destruct Hk as [d' [l' Hin]].
       destruct (item_is_trans s S w d' l' k R Hin) as [t Htr].
       destruct (lit_lookup_complete d (a_commands a) _ _ _ om T Hwf Hord Hglt s w d' l' t Hvalid Htr) as [to' E].
       rewrite El in E. discriminate.
+  Qed.
+
+  (** every state of the (trim) automaton is related to a point: all its transitions are literal *)
+  Lemma run_related : forall ids s S t, rel s S -> Dfa.run d s ids = Some t -> exists S', rel t S'.
+  Proof.
+    induction ids as [| i ids IH]; intros s S t R H; cbn [Dfa.run] in H.
+    - inversion H; subst. eauto.
+    - destruct (Dfa.step d s i) as [t1 |] eqn:Es; [| discriminate].
+      destruct (step_has_input d Hwf s i t1 Es) as [x Hx].
+      assert (Htr : trans_on d s x t1) by (exists i; split; assumption).
+      destruct (trans_is_item s S x t1 R Htr) as [w [dso [l [k [-> _]]]]].
+      destruct (rel_trans s S w dso l t1 R Htr) as [R1 _]. apply (IH t1 _ t R1 H).
+  Qed.
+
+  Lemma all_related s : In s (states d) -> exists S, rel s S.
+  Proof.
+    intro Hs. destruct Htrim as [Hre _]. destruct (Hre s Hs) as [ids Hrun].
+    apply (run_related ids (d_start d) (start e) s rel_start Hrun).
+  Qed.
+
+  Lemma all_trans_literal s x t : trans_on d s x t -> exists w dso l, x = ILit w dso l.
+  Proof.
+    intro Htr. pose proof Htr as [i [Hs _]].
+    destruct (all_related s (proj1 (step_in_states d s i t Hs))) as [S R].
+    destruct (trans_is_item s S x t R Htr) as [w [dso [l [k [-> _]]]]]. eauto.
+  Qed.
+
+  (** hence the tables contain nothing about within-word expressions *)
+  Lemma tables_subword_free : spec_subword_free a.
+  Proof.
+    split.
+    - destruct (a_subtrans a) as [| [s row] r] eqn:E; [reflexivity | exfalso].
+      destruct (all_tables_inv _ _ _ _ _ _ Hall) as [rt F]. pose proof (af_subtrans _ _ _ _ _ _ _ F) as H.
+      unfold subword_transitions in H. apply obind_ok in H. destruct H as [rows [_ H]]. inversion H as [Ha].
+      assert (Hin : In (s, row) (a_subtrans a)) by (rewrite E; left; reflexivity).
+      rewrite <- Ha in Hin. apply filter_In in Hin. destruct Hin as [_ Hne'].
+      destruct row as [| [pi to] row']; [discriminate |].
+      assert (Hx : exists lvl, trans_on d s (ISub pi lvl) to).
+      { apply (subtrans_exact Bash c om os nd a Hwf Hall s pi to). exists ((pi, to) :: row').
+        split; [rewrite E; left; reflexivity | left; reflexivity]. }
+      destruct Hx as [lvl Htr]. destruct (all_trans_literal s _ to Htr) as [w [dso [l Ex]]]. discriminate.
+    - intros level s. destruct (level_row (a_csub a) level s) as [| id r] eqn:E; [reflexivity | exfalso].
+      assert (M : mem3 (a_csub a) (N.of_nat level) s id).
+      { unfold level_row in E. unfold mem3, mem2. rewrite Nat2N.id.
+        destruct (nth_error (a_csub a) level) as [rows |]; [| discriminate]. exists rows. split; [reflexivity |].
+        destruct (assocN s rows) as [ids |] eqn:Ea; [| discriminate]. exists ids. split; [apply assocN_in; exact Ea | rewrite E; left; reflexivity]. }
+      apply (csub_exact Bash c om os nd a Hwf Hall) in M. destruct M as [rt [pi [to [_ [Htr _]]]]].
+      destruct (all_trans_literal s _ to Htr) as [w [dso [l Ex]]]. discriminate.
   Qed.
 
   (** no command row and no catch-all entry at a related state *)
